@@ -36,12 +36,30 @@ def pool(plan, seed, off=0):
 
 def snap(v):
     """type, text, ordered cells, exact canonical object graph (renderings and == are functions of it;
-    for an AnsiStr additionally the str payload)."""
-    if isinstance(v, AnsiStr):
-        t, c = model.alpha_codes(v._s)
-        return ('AnsiStr', t, tuple(c), model.canon(v._s), str.__str__(v))
-    t, c = model.alpha_codes(v)
-    return ('AnsiString', t, tuple(c), model.canon(v))
+    for an AnsiStr additionally the str payload).  A value that can no longer be read is a snapshot of its own."""
+    try:
+        if isinstance(v, AnsiStr):
+            t, c = model.alpha_codes(v._s)
+            return ('AnsiStr', t, tuple(c), model.canon(v._s), str.__str__(v))
+        t, c = model.alpha_codes(v)
+        return ('AnsiString', t, tuple(c), model.canon(v))
+    except env.HarnessError:
+        raise
+    except Exception as e:  # noqa
+        return ('unreadable', getattr(v, 'base_str', '?'), 'reading it raises %s: %s' % (type(e).__name__, e))
+
+
+def explicit_values(seed):
+    """Values that are always operands, whatever the health probe of the pool builder says (the probe itself
+    uses + and copy, so a defect there must not be able to empty the operand set)."""
+    R = explore.roles(seed)
+    hs = [[['plain', 'ab']], [['rainbow', 'abc']], [['ctor', 'ab', R['R']]],
+          [['plain', 'abc'], ['apply', R['R'], 0, 2, True], ['apply', R['W'], 1, 3, True]],
+          [['plain', 'abcd'], ['apply', R['R'], 1, 3, True]],
+          [['plain', 'abcd'], ['apply', R['R'], 0, 4, True], ['apply', R['R'], 1, 2, True]],
+          [['rainbow', 'a-b-c'], ['apply', R['W'], 1, 4, True]],
+          [['plain', 'abcdef'], ['apply', R['R'], 1, 5, True], ['apply', R['B'], 2, 4, True]]]
+    return [(h, build(h)) for h in hs]
 
 
 def mutators(seed):
@@ -367,7 +385,7 @@ def run_task(task, acc):
     tier = env.tier()
     c = cfg(tier)
     seed = acc.seed
-    A = pool(c['plan_a'], seed)
+    A = explicit_values(seed) + pool(c['plan_a'], seed)
     if task['kind'] == 'unary':
         for ia, (h, v) in enumerate(A):
             if ia % K != task['part']:
